@@ -5,7 +5,7 @@ import re
 
 from ..model import AnalysisError, norm, short, call_name, const_val, is_name, names_in
 from ..report import rule
-from ..finite import Undecided
+from ..finite import Undecided, eval_guard, flag_valuation
 from ..consteval import get_folder
 from .P import _parents
 
@@ -802,3 +802,65 @@ def P33(m, R):
                  % ('over ' + short(site.iter) if isinstance(site, ast.For) else 'absent'), construct='remove_formatting clean-up')
         for h, n, cons, msg in rel:
             R.viol(h, n, msg + '; ' + wit, construct=cons)
+
+
+# ----------------------------------------------------------------------------------------------------------------------
+@rule('P34', 'parser / parsable agreement: a colour group that parse_graphic_sequence emits while dropping erroneous items has passed the range test '
+             '(0..255) that AnsiSetting.parsable applies to every code', floor=1)
+def P34(m, R):
+    from .P_more2 import erroneous_polarity
+    f = m.fn('parse_graphic_sequence')
+    ae = f.params[1]
+    pol = erroneous_polarity(m)
+    pol = True if pol is None else pol
+    # does parsable range-check its codes at all?  (if it does not, there is nothing to agree with)
+    pz = m.fn('AnsiSetting.parsable')
+    ranged = [n for n in pz.walk() if isinstance(n, ast.Compare) and any(const_val(c, None) in (255, 256) for c in [n.left] + list(n.comparators))]
+    loop = next((n for n in f.body if isinstance(n, ast.For) and any(call_name(x) == 'seq_starts_with_fn' for x in ast.walk(n))), None)
+    if loop is None:
+        raise AnalysisError('anchor vanished: scan loop of parse_graphic_sequence')
+    value = norm(loop.target.elts[1]) if isinstance(loop.target, ast.Tuple) else norm(loop.target)
+    emits = []
+    for n in ast.walk(loop):
+        if isinstance(n, ast.Call) and call_name(n) == 'AnsiSetting' and n.args and isinstance(n.args[0], ast.Name) and n.args[0].id != value:
+            emits.append(n)
+    cons = 'group emission range test'
+    if not ranged:
+        R.ok(pz, pz.node, 'parsable applies no range test to its codes: nothing for the parser to agree with', construct=cons)
+        return
+    if not emits:
+        R.undecided(f, loop, 'the emission of a completed group was not found', construct=cons)
+        return
+    for call in emits:
+        # guards between the emission and the loop, plus guards on a name the built setting was bound to
+        tests = [p.test for p in _parents(call) if isinstance(p, ast.If) and any(x is p for x in ast.walk(loop))]
+        st = next((p for p in _parents(call) if isinstance(p, ast.stmt)), None)
+        bound = norm(st.targets[0]) if isinstance(st, ast.Assign) and st.value is call and isinstance(st.targets[0], ast.Name) else None
+        if bound is not None:
+            for n in ast.walk(loop):
+                if isinstance(n, ast.If) and bound in names_in(n.test) and any(
+                        isinstance(x, ast.Call) and call_name(x) == 'append' and x.args and norm(x.args[0]) == bound for x in ast.walk(n)):
+                    tests.append(n.test)
+
+        def range_tested(t):
+            for x in ast.walk(t):
+                if isinstance(x, ast.Attribute) and x.attr == 'parsable':
+                    return True
+                if isinstance(x, ast.Constant) and x.value in (255, 256) and not isinstance(x.value, bool):
+                    return True
+            return False
+        hit = [t for t in tests if range_tested(t)]
+        if hit:
+            # the test must be in force when erroneous items are dropped: with the flag at its dropping value the guard must not be decided by the flag alone
+            t = hit[0]
+            others = {nm: False for nm in names_in(t) if nm != ae}
+            forced = eval_guard(t, flag_valuation(dict(others, **{ae: (not pol)}), {}))
+            if forced is True:
+                R.viol(f, call, 'the range test `%s` is bypassed when erroneous items are dropped (%s=%s): a group such as 38;5;300 is emitted although parsable rejects it'
+                       % (short(t), ae, not pol), construct=cons)
+            else:
+                R.ok(f, call, 'a completed group is emitted, while dropping erroneous items, only under `%s`' % short(t), construct=cons)
+        else:
+            R.viol(f, call, 'a completed colour group is emitted without the range test that AnsiSetting.parsable applies (L%d: %s): parse_graphic_sequence("38;5;300") returns '
+                            'the setting 38;5;300 although it promises parsable settings when erroneous items are dropped -- set_ansi_str keeps it, and after simplify() '
+                            'is_formatting_parsable() is still False' % (ranged[0].lineno, short(ranged[0])), construct=cons)
